@@ -174,7 +174,7 @@ def r11_common_prefix(sig, body):
 
 def r12_std_paths(sig, body):
     """R12: `mem::take`/`mem::size_of` paths -> unit-local stubs with the same name (std function trusted by contract)."""
-    body, n = re.subn(r'\bmem::(take|size_of|replace)\b', r'mem_\1', body)
+    body, n = re.subn(r'\bmem::(take|size_of_val|size_of|replace)\b', r'mem_\1', body)
     return sig, body, n
 
 
